@@ -102,6 +102,12 @@ def base_of(c):
 
 
 COPY_OPS = [["copy"], ["ccopy"], ["deepcopy"], ["pickle"], ["ctor"]]
+MUTATORS = {"Instance": ["add", "discard", "update"], "ApprovalBallot": ["add", "discard", "update"],
+            "CardinalBallot": ["__setitem__", "setdefault", "update", "pop"],
+            "CumulativeBallot": ["__setitem__", "setdefault", "update", "pop"],
+            "OrdinalBallot": ["__setitem__", "setdefault", "update", "pop", "append"],
+            "SatisfactionProfile": ["append", "extend", "insert"], "BudgetAllocation": ["append", "extend", "insert"],
+            "SatisfactionMultiProfile": ["append", "update", "__setitem__"]}
 
 
 def gen_op(rng, c, n):
@@ -114,6 +120,15 @@ def gen_op(rng, c, n):
     if r < 0.45 and is_prof(c):
         # construction from the object with an explicit validation flag (off->on and on->off transitions)
         return ["ctor_val", rng.choice([1, 1, 0])]
+    if r < 0.6 and is_prof(c):
+        # satisfaction profile of the profile: the method, and the constructors given profile= / multiprofile=
+        return ["as_sat", rng.choice([0, 1, 1, 2])]
+    if r < 0.4 and c in MUTATORS:
+        return ["mutate", rng.choice(MUTATORS[c])]
+    if r < 0.45 and base_of(c) not in ("tuple",):
+        return ["clear"]
+    if r < 0.5 and c in ("SatisfactionProfile", "SatisfactionMultiProfile"):
+        return ["remove_satisfied"]
     if r < 0.53 and ("Profile" in c):
         # the linked instance is emptied (0, 2) / refilled (1) in place: an Instance without projects is falsy
         return ["inst_mut", rng.choice([0, 0, 1, 2])]
@@ -143,7 +158,7 @@ def gen_op(rng, c, n):
         es = [rng.randrange(0, 8) if rng.random() < 0.3 else rng.randrange(0, 3) for _ in range(rng.randrange(0, 4))]
         return rng.choice([["append", e], ["insert", [rng.randrange(0, n + 2), e]], ["extend", es], ["iadd_els", es],
                            ["setitem", [rng.randrange(0, n + 1), e]], ["setslice", [sl[0], sl[1], es]],
-                           ["as_multiprofile"]])
+                           ["as_multiprofile"], ["pop"]])
     # counter
     generic = [[rng.choice(["add", "sub", "or", "and"]), arg], [rng.choice(["iadd", "isub", "ior", "iand"]), arg],
                ["ror"], ["mul", 2], ["imul", 2]]
@@ -280,6 +295,16 @@ def coq_op(op):
         return "OAsMulti"
     if n == "ctor_val":
         return "OCtorVal %s" % boolc(bool(a))
+    if n == "as_sat":
+        return "OAsSat %s" % N(a)
+    if n == "mutate":
+        return "OMutate %s" % _s(a)
+    if n == "clear":
+        return "OClear"
+    if n == "pop":
+        return "OPop"
+    if n == "remove_satisfied":
+        return "ORemoveSat"
     if n == "inst_mut":
         return "OInstMut %s" % N(a)
     raise ValueError(op)
